@@ -101,6 +101,15 @@ async def run_schedule(loop, kind, evs, pairing_state="none"):
         blc = BleController(top._char_cache)
         top.transports[TransportType.IP] = ipc_
         top.transports[TransportType.BLE] = blc
+        if pairing_state in ("ble-paired", "ip-paired"):
+            # a pairing for the accessory most schedules wait for is loaded on ONE transport; advertisements keep arriving
+            # on both (a Thread/BLE accessory that also shows up on the network, an IP accessory that also beacons)
+            data = {"AccessoryPairingID": IDS[7], "iOSPairingId": "x", "iOSDeviceLTPK": "00" * 32, "iOSDeviceLTSK": "00" * 32, "AccessoryLTPK": "00" * 32}
+            if pairing_state == "ble-paired":
+                data.update({"AccessoryAddress": IDS[7], "Connection": "BLE"})
+            else:
+                data.update({"AccessoryIP": "10.0.0.9", "AccessoryIPs": ["10.0.0.9"], "AccessoryPort": 80, "Connection": "IP"})
+            top.load_pairing("alias", data)
         finder = top.async_find
     out = {}
 
@@ -241,7 +250,7 @@ def run(ctx: Ctx, driver: Driver):
     for kind in ("mdns", "ble", "aggregate"):
         sub = seqs if kind != "aggregate" else seqs[::3]
         for evs in sub:
-            for pstate in (("none",) if kind != "ble" else ("none", "cached", "uncached")):
+            for pstate in ({"mdns": ("none",), "ble": ("none", "cached", "uncached"), "aggregate": ("none", "ble-paired", "ip-paired")}[kind]):
                 if pstate != "none" and rng.random() < 0.6:
                     continue
                 out, errors = loop.run_until_complete(run_schedule(loop, kind, evs, pstate))
